@@ -55,7 +55,7 @@ theorem pintegral_eq_of_deriv (p : Poly) (Q : ℚ[X]) (h : ∀ t, (derivative Q)
     rw [h t, eval_toPoly]
   have hz : derivative (Q - toPoly (pantideriv p)) = 0 := by
     rw [derivative_sub, hd, deriv_pantideriv, sub_self]
-  have hc := natDegree_eq_zero_of_derivative_eq_zero hz
+  have hc := Polynomial.derivative_eq_zero.mp hz
   obtain ⟨k, hk⟩ := (natDegree_eq_zero.mp hc)
   have e : ∀ t, Q.eval t - peval (pantideriv p) t = k := by
     intro t
